@@ -9,6 +9,7 @@ ID = "C17"
 LEVEL = "exploration"
 TECHNIQUE = "exhaustive small (b,t,n) grid + Hypothesis-generated configurations against a step-counting model and numpy's SeedSequence.spawn as reference"
 RULE = (
+    "(every MCMC triple is also sampled with progress_bar=True and the batchie logger at DEBUG: generator, schedule and completeness must not change) "
     "exhaustive b<=6,t<=4,n<=5 with a counting MCMC model; generated b in 0..12 (also 100, 1000), t in 1..6 (also 10, 25), n in 1..8 (also 20, 100, 257, 600, 1025), seeds in {0, small, up to 2^63}, "
     "n_chains 1..6 with two chain indices; a cross-process sweep (fixed triples sampled in three different orders in three interpreters must get the same streams); a counting VI model; the real SparseDrugCombo sampler in 1 of 8 cases. "
     "Non-trivial = b>0 and t>1 and n_chains>1 (exhaustive grid: b>0 and t>1). distinct = distinct case JSON."
@@ -289,6 +290,28 @@ def check_case(case):
     m2 = Counting()
     sampling.sample(model=m2, results=ThetaHolder(n_thetas=case.get("n2", 1)), seed=seed, n_chains=n_chains, chain_index=chain, n_burnin=case.get("b2", 0), thin=case.get("t2", 1))
     require(np.array_equal(_prefix(m2.rng), own), "rng.depends_only_on_triple", "generator changed with burn-in/thinning/count")
+    # ... nor on how the run reports its progress: a progress bar, verbose logging
+    import contextlib
+    import io
+    import logging
+
+    m4 = Counting()
+    lg = logging.getLogger("batchie")
+    old_level, old_disable = lg.level, logging.root.manager.disable
+    sink = logging.NullHandler()
+    try:
+        lg.addHandler(sink)
+        lg.setLevel(logging.DEBUG)
+        logging.disable(logging.NOTSET)
+        with contextlib.redirect_stderr(io.StringIO()), contextlib.redirect_stdout(io.StringIO()):
+            out4 = sampling.sample(model=m4, results=ThetaHolder(n_thetas=case.get("n2", 1)), seed=seed, n_chains=n_chains, chain_index=chain, n_burnin=case.get("b2", 0), thin=case.get("t2", 1), progress_bar=True)
+    finally:
+        lg.setLevel(old_level)
+        lg.removeHandler(sink)
+        logging.disable(old_disable)
+    require(np.array_equal(_prefix(m4.rng), own), "rng.independent_of_progress_reporting", "the model's generator differs when the run shows a progress bar / logs verbosely")
+    _check_schedule(m4.events, case.get("b2", 0), case.get("t2", 1), case.get("n2", 1), "mcmc.with_progress_bar")
+    require(out4.is_complete, "mcmc.with_progress_bar.complete", "collection not complete when a progress bar is shown")
     other = case["other"]
     if other != chain:
         m3 = Counting()
